@@ -547,13 +547,25 @@ class Fill(CellModifierInput):
             else:
                 # the fill was read without a transform: it gets the parentheses now
                 last = new_vals[-1]
-                if isinstance(last, syntax_node.ValueNode) and last.padding is None:
-                    last.padding = syntax_node.PaddingNode(" ")
+                behind = []
+                if isinstance(last, syntax_node.ValueNode):
+                    trailing = last.padding
+                    if trailing is not None and any(
+                        isinstance(part, syntax_node.CommentNode) or part == "\n"
+                        for part in trailing.nodes
+                    ):
+                        # a comment or the end of the line follows the universe: the parentheses go in
+                        # front of it, not behind it (they would be comment text, or start a new input)
+                        last.padding = syntax_node.PaddingNode(" ")
+                        behind = [trailing]
+                    elif trailing is None:
+                        last.padding = syntax_node.PaddingNode(" ")
                 new_vals = (
                     new_vals
                     + [syntax_node.PaddingNode("(")]
                     + payload
                     + [syntax_node.PaddingNode(")")]
+                    + behind
                 )
         self._tree["data"].update_with_new_values(new_vals)
 
